@@ -107,8 +107,9 @@ class Emitter:
             return '(%s %s)' % (op.capitalize(), T(a[0]))
         if op == 'atan': return '(Atan2 %s (Cst (1 # 1)))' % T(a[0])
         if op == 'atan2': return '(Atan2 %s %s)' % (T(a[0]), T(a[1]))
-        if op in ('acos', 'asin') and a[0].is_const():      # a constant angle (e.g. a fixed random draw)
-            v = getattr(math, op)(float(Fraction(a[0].cval())))
+        if op in ('acos', 'asin') and not shim.free_vars(a[0]):      # a constant angle (e.g. of a fixed random draw): its float64 value
+            v = shim.evalf(e, {})
+            if not math.isfinite(v): raise shim.TraceError('constant %s outside its domain' % op)
             return '(Cst %s)' % qtext(Fraction(v))
         if op == 'rpow':
             if not a[1].is_const():
@@ -181,17 +182,27 @@ def prog_coq(name, instrs):
 
 
 # ===================================================================== Coq print -> trees
-_TOK = re.compile(r'\s*(?:(\d+(?:\.\d+)?(?:[eE][+-]?\d+)?)|([A-Za-z_][A-Za-z_0-9\']*)|(.))')
+_TOK = re.compile(r'\s*(?:(0[xX][0-9a-fA-F]+(?:\.[0-9a-fA-F]*)?(?:[pP][+-]?\d+)?|\d+(?:\.\d+)?(?:[eE][+-]?\d+)?)|([A-Za-z_][A-Za-z_0-9\']*)|(.))')
 ARITY = {'Var': 1, 'Cst': 1, 'CPi': 0, 'Add': 2, 'Sub': 2, 'Mul': 2, 'Div': 2, 'Neg': 1, 'Pow': 2, 'Sqrt': 1, 'Sin': 1,
          'Cos': 1, 'Exp': 1, 'Ln': 1, 'Atan2': 2, 'Rpw': 2, 'Abs': 1, 'Floor': 1, 'Ite': 4,
          'CNe': 2, 'CNz': 1, 'CPos': 1, 'CCut': 2, 'CNonInt': 1, 'Some': 1, 'None': 0, 'true': 0, 'false': 0}
+
+
+def _num(txt):
+    """Coq prints Q literals as integers, decimals (0.299) or hexadecimal fractions (0x0.4); all exact"""
+    if txt[:2].lower() != '0x':
+        return Fraction(txt)
+    body, _, ex = txt[2:].lower().partition('p')
+    ip, _, fp = body.partition('.')
+    v = Fraction(int(ip or '0', 16)) + (Fraction(int(fp, 16), 16 ** len(fp)) if fp else 0)
+    return v * Fraction(2) ** int(ex) if ex else v
 
 
 def tokenize(s):
     s = re.sub(r'%[A-Za-z_]+', '', s)
     out = []
     for m in _TOK.finditer(s):
-        if m.group(1) is not None: out.append(('n', Fraction(m.group(1))))
+        if m.group(1) is not None: out.append(('n', _num(m.group(1))))
         elif m.group(2) is not None: out.append(('i', m.group(2)))
         elif m.group(3) is not None and not m.group(3).isspace(): out.append(('p', m.group(3)))
     return out
